@@ -99,11 +99,11 @@ impl Newton<Vec64> {
         let mut current: Vec64 = self.guess.clone();
         for _ in 0..self.max_iter {
             let f: Vec64 = func( current.clone() );
-            let max_residual = f.norm_inf();
             let mut j = Mat64::jacobian( current.clone(), func, self.delta );
             let dx: Vec64 = j.solve_basic( &f );
+            let step = dx.norm_inf();
             current -= dx;
-            if max_residual <= self.tol {
+            if step <= self.tol {
                 return Ok( current )
             }
         }
@@ -117,11 +117,11 @@ impl Newton<Vec64> {
         let mut current: Vec64 = self.guess.clone();
         for _ in 0..self.max_iter {
             let f: Vec64 = func( current.clone() );
-            let max_residual = f.norm_inf();
             let mut j: Mat64 = jac( current.clone() ); 
             let dx: Vec64 = j.solve_basic( &f );
+            let step = dx.norm_inf();
             current -= dx;
-            if max_residual <= self.tol {
+            if step <= self.tol {
                 return Ok( current )
             }
         }
@@ -136,11 +136,11 @@ impl Newton<Vector<Cmplx>> {
         let mut current: Vector<Cmplx> = self.guess.clone();
         for _ in 0..self.max_iter {
             let f: Vector<Cmplx> = func( current.clone() );
-            let max_residual = f.norm_inf();
             let mut j = Matrix::jacobian_cmplx( current.clone(), func, self.delta );
             let dx: Vector<Cmplx> = j.solve_basic( &f );
+            let step = dx.norm_inf();
             current -= dx;
-            if max_residual <= self.tol {
+            if step <= self.tol {
                 return Ok( current )
             }
         }
@@ -154,11 +154,11 @@ impl Newton<Vector<Cmplx>> {
         let mut current: Vector<Cmplx> = self.guess.clone();
         for _ in 0..self.max_iter {
             let f: Vector<Cmplx> = func( current.clone() );
-            let max_residual = f.norm_inf();
             let mut j: Matrix<Cmplx> = jac( current.clone() ); 
             let dx: Vector<Cmplx> = j.solve_basic( &f );
+            let step = dx.norm_inf();
             current -= dx;
-            if max_residual <= self.tol {
+            if step <= self.tol {
                 return Ok( current )
             }
         }
